@@ -72,10 +72,14 @@ def decodeText (w : Nat) (text : List Char) : Except CErr (Nat × Nat × List El
         | _, _, .error e => .error e
   go pieces
 
-/-- Writer text without folding (`moc2d_to_ascii_ivoa(None, false)`). -/
+/-- Writer characters without folding (`moc2d_to_ascii_ivoa(None, false)`). -/
+def encodeCharsST (w d1 d2 : Nat) (elems : List Elem) : List Char :=
+  (elems.map fun e =>
+    't' :: (encodeChars d1 (itemsOf Params.time w d1 e.1)
+      ++ 's' :: encodeChars d2 (itemsOf Params.hpx w d2 e.2))).flatten
+    ++ ('t' :: (showNat d1 ++ '/' :: ' ' :: 's' :: (showNat d2 ++ ['/', '\n'])))
+
 def encodeTextST (w d1 d2 : Nat) (elems : List Elem) : String :=
-  String.join (elems.map fun e =>
-    "t" ++ encodeText d1 (itemsOf Params.time w d1 e.1) ++ "s" ++ encodeText d2 (itemsOf Params.hpx w d2 e.2))
-    ++ s!"t{d1}/ s{d2}/\n"
+  String.ofList (encodeCharsST w d1 d2 elems)
 
 end Moc.STText
